@@ -672,3 +672,123 @@ func NormBin(op string, a, b *Term) *Term { return normalize(mk(KBin, op, nil, n
 
 // FieldlessExtract returns the term of result i of a call.
 func (fi *FuncInfo) FieldlessExtract(call *ssa.Call, i int) *Term { return fi.extractTerm(call, i) }
+
+// VarargElems returns the values stored into a variadic argument slice
+// (new [N]T; stores to its elements; slice [:]) in element order.
+func VarargElems(v ssa.Value) []ssa.Value {
+	sl, ok := v.(*ssa.Slice)
+	if !ok {
+		return nil
+	}
+	al, ok := sl.X.(*ssa.Alloc)
+	if !ok {
+		return nil
+	}
+	n, ok := arrayLen(al.Type())
+	if !ok {
+		return nil
+	}
+	out := make([]ssa.Value, n)
+	refs := al.Referrers()
+	if refs == nil {
+		return nil
+	}
+	for _, r := range *refs {
+		ia, ok := r.(*ssa.IndexAddr)
+		if !ok {
+			continue
+		}
+		k, ok := ia.Index.(*ssa.Const)
+		if !ok {
+			continue
+		}
+		idx := int(k.Int64())
+		if irefs := ia.Referrers(); irefs != nil {
+			for _, r2 := range *irefs {
+				if st, ok := r2.(*ssa.Store); ok && st.Addr == ia && idx < len(out) {
+					out[idx] = st.Val
+				}
+			}
+		}
+	}
+	return out
+}
+
+// PathOf resolves a file path value built with filepath.Join / path.Join (or a
+// constant) into its component terms; ok is false if the shape is different.
+func (fi *FuncInfo) PathOf(v ssa.Value) (parts []*Term, ok bool) {
+	switch x := v.(type) {
+	case *ssa.Const:
+		return []*Term{fi.Term(x)}, true
+	case *ssa.Call:
+		name := CalleeName(&x.Call)
+		if name == "path/filepath.Join" || name == "path.Join" {
+			if len(x.Call.Args) == 1 {
+				for _, e := range VarargElems(x.Call.Args[0]) {
+					if e == nil {
+						return nil, false
+					}
+					sub, ok := fi.PathOf(e)
+					if ok && len(sub) > 0 && sub[0].K == KConst {
+						parts = append(parts, sub...)
+					} else {
+						parts = append(parts, fi.Term(e))
+					}
+				}
+				return parts, true
+			}
+			for _, a := range x.Call.Args {
+				parts = append(parts, fi.Term(a))
+			}
+			return parts, true
+		}
+	case *ssa.Phi:
+		// both branches must agree on the last (file name) component
+		var last *Term
+		for _, e := range x.Edges {
+			sub, ok := fi.PathOf(e)
+			if !ok || len(sub) == 0 {
+				return nil, false
+			}
+			l := sub[len(sub)-1]
+			if last == nil {
+				last = l
+				parts = sub
+			} else if last.Key() != l.Key() {
+				return nil, false
+			}
+		}
+		return parts, last != nil
+	case *ssa.UnOp:
+		t := fi.Term(x)
+		if t.K == KConst {
+			return []*Term{t}, true
+		}
+		if t.Val != nil && t.Val != v {
+			return fi.PathOf(t.Val)
+		}
+	}
+	t := fi.Term(v)
+	if t.K == KConst {
+		return []*Term{t}, true
+	}
+	if t.Val != nil && t.Val != v {
+		if _, isCall := t.Val.(*ssa.Call); isCall {
+			return fi.PathOf(t.Val)
+		}
+	}
+	return []*Term{t}, false
+}
+
+// PathFileName returns the constant last component of a path value ("" if unknown).
+func (fi *FuncInfo) PathFileName(v ssa.Value) string {
+	parts, _ := fi.PathOf(v)
+	if len(parts) == 0 {
+		return ""
+	}
+	last := parts[len(parts)-1]
+	if k, ok := last.IsConst(); ok && len(k) >= 2 && k[0] == '"' {
+		return k[1 : len(k)-1]
+	}
+	return ""
+}
